@@ -620,6 +620,13 @@ func retryCheck(c *drv.Ctx, lp *LabProp, l *lab.Lab, cases []*lab.Case, pts []*P
 			again := r.second.Entry
 			cs := *r.first.Case
 			cs.Hist = nil
+			if what != "" && !strings.Contains(what, "other memo mode") {
+				// minimise through the history shrinker (it knows about second calls)
+				ev := &histEval{what: fmt.Sprintf("Parse(%s) is rejected on %s; Parse(%s) called next WITHOUT Reset [%s]: %s", r.first.Case.G.Rules[r.first.Entry].Name, clipQ(r.first.Input), r.first.Case.G.Rules[again].Name, modeKey(r.mode), what), mode: r.mode, step: 0}
+				v := shrinkHist(c, lp.ID, &cs, []proto.Step{{Entry: r.first.Entry, Input: proto.QStr(r.first.Input), Again: &again}}, ev)
+				v.Kind = "lab-retry"
+				return v
+			}
 			rp := &histReplay{Case: &cs, Steps: []proto.Step{{Entry: r.first.Entry, Input: proto.QStr(r.first.Input), Again: &again}}, Mode: r.mode}
 			rp.Grammar = lab.Render(rp.Case, "g", false)
 			desc := fmt.Sprintf("Parse(%s) is rejected on %q; Parse(%s) called next WITHOUT Reset [%s]: %s\n--- grammar ---\n%s", r.first.Case.G.Rules[r.first.Entry].Name, r.first.Input,
